@@ -237,3 +237,143 @@ package commitlog
 //@   loop 1 invariant fresh(filtered) && len(filtered) <= rangeindex + 1 && len(filtered) <= cap(filtered) && cap(filtered) == len(l.epochOffsets)
 //@   loop 1 invariant forall i int :: 0 <= i && i < len(filtered) ==> filtered[i] == old(l.epochOffsets[i]) && old(l.epochOffsets[i].startOffset) < offset
 //@   loop 1 invariant len(filtered) < rangeindex + 1 ==> old(l.epochOffsets[len(filtered)].startOffset) >= offset
+
+// ---------------------------------------------------------------------------------------------
+// Offset assignment (properties C01, C16, C02)
+//
+// nextOf(s): the offset the next message written to segment s gets; nextOffset(l): that of the log
+//@ pure func nextOf(s *segment) int64 = s.lastOffset == -1 ? s.BaseOffset : s.lastOffset + 1
+//@ pure func nextOffset(l *commitLog) int64 = nextOf(l.vActiveSegment)
+
+//@ func (*segment).NextOffset serves C01, C16, C02
+//@   requires s != nil
+//@   modifies nothing
+//@   ensures result == nextOf(s)
+
+// the active segment pointer is kept in an atomic.Pointer-style field; atomics are modelled as plain reads/writes
+//@ func (*commitLog).activeSegment serves C01, C16, C02
+//@   requires l != nil
+//@   modifies nothing
+//@   ensures result == l.vActiveSegment
+
+//@ func (*commitLog).NewestOffset serves C01, C16, C02
+//@   requires l != nil && l.vActiveSegment != nil
+//@   modifies nothing
+//@   ensures result == nextOffset(l) - 1
+
+//@ func (*commitLog).IsConcurrencyControlEnabled serves C16
+//@   requires l != nil
+//@   modifies nothing
+//@   ensures result == l.ConcurrencyControl
+
+// newSegment only initialises the segment it returns (assumed: its body opens files and recovers an index)
+//@ assume func newSegment
+//@   returns (s, err)
+//@   ensures err == nil ==> s != nil && fresh(s) && s.BaseOffset == baseOffset && (isNew ==> s.lastOffset == -1 && s.firstOffset == -1 && s.position == 0)
+//@   ensures err != nil ==> s == nil
+//@   ensures forall x *segment :: x != s ==> x.lastOffset == old(x.lastOffset) && x.BaseOffset == old(x.BaseOffset) && x.firstOffset == old(x.firstOffset) && x.position == old(x.position)
+//@   ensures forall x *commitLog :: x.vActiveSegment == old(x.vActiveSegment) && x.segments == old(x.segments)
+
+// split: the new active segment starts exactly at the old next offset, so rolling never skips or repeats an offset
+//@ func (*commitLog).split serves C01, C16
+//@   requires l != nil && l.vActiveSegment != nil
+//@   ensures [next-kept] nextOffset(l) == old(nextOffset(l)) && l.vActiveSegment != nil
+//@   ensures [rolled] result == nil ==> l.vActiveSegment != nil && l.vActiveSegment.BaseOffset == old(nextOffset(l)) && l.vActiveSegment.lastOffset == -1
+
+//@ func (*segment).CheckSplit serves C01
+//@   requires s != nil
+//@   modifies nothing
+//@ func (*segment).Seal serves C01
+//@   requires s != nil
+//@   ensures forall x *segment :: x.lastOffset == old(x.lastOffset) && x.BaseOffset == old(x.BaseOffset)
+//@   ensures forall x *commitLog :: x.vActiveSegment == old(x.vActiveSegment)
+
+//@ func (*commitLog).checkAndPerformSplit serves C01, C16
+//@   returns (split, err)
+//@   requires l != nil && l.vActiveSegment != nil
+//@   ensures [next-kept] nextOffset(l) == old(nextOffset(l)) && l.vActiveSegment != nil
+//@   loop 1 invariant nextOffset(l) == old(nextOffset(l)) && l.vActiveSegment != nil
+
+//@ globalinv ErrIncorrectOffset serves C16, C01: ErrIncorrectOffset != nil
+//@ globalinv ErrCommitLogClosed serves C16, C01, C05: ErrCommitLogClosed != nil
+//@ globalinv ErrCommitLogDeleted serves C16, C01, C05: ErrCommitLogDeleted != nil
+//@ globalinv ErrEntryNotFound serves C16, C01, C05: ErrEntryNotFound != nil
+//@ globalinv ErrSegmentClosed serves C16, C01, C05: ErrSegmentClosed != nil
+//@ globalinv ErrSegmentReplaced serves C16, C01, C05: ErrSegmentReplaced != nil
+//@ globalinv ErrSegmentExists serves C16, C01: ErrSegmentExists != nil
+//@ globalinv ErrCommitLogReadonly serves C16, C01: ErrCommitLogReadonly != nil
+
+// newMessageSetFromProto: message i of the batch gets offset base+i; under concurrency control a message
+// with an expected offset is refused unless that is the offset it would get; nothing outside fresh memory changes.
+//@ func newMessageSetFromProto serves C01, C16
+//@   returns (ms, entries, err)
+//@   requires forall j int :: 0 <= j && j < len(msgs) ==> msgs[j] != nil
+//@   ensures [entries-len] err == nil ==> len(entries) == len(msgs)
+//@   ensures [entries-nonnil] err == nil ==> (forall j int :: 0 <= j && j < len(entries) ==> entries[j] != nil)
+//@   ensures [entries-offset] err == nil ==> (forall j int :: 0 <= j && j < len(entries) ==> entries[j].Offset == baseOffset + j)
+//@   ensures [last-offset] err == nil && len(msgs) >= 1 ==> entries[len(entries)-1].Offset == baseOffset + len(msgs) - 1
+//@   ensures [entries-meta] err == nil ==> (forall j int :: 0 <= j && j < len(entries) ==> entries[j].Timestamp == old(msgs[j].Timestamp) && entries[j].LeaderEpoch == old(msgs[j].LeaderEpoch))
+//@   ensures [cc-refused] concurrencyControl && len(msgs) == 1 && old(msgs[0].Offset) != -1 && old(msgs[0].Offset) != baseOffset ==> err == ErrIncorrectOffset
+//@   ensures [cc-only-when-mismatch] err == ErrIncorrectOffset ==> concurrencyControl && (exists j int :: 0 <= j && j < len(msgs) && old(msgs[j].Offset) != -1 && old(msgs[j].Offset) != baseOffset + j)
+//@   ensures [no-other-error] err == nil || err == ErrIncorrectOffset
+//@   ensures [log-untouched] forall x *segment :: x.lastOffset == old(x.lastOffset) && x.BaseOffset == old(x.BaseOffset) && x.position == old(x.position) && x.firstOffset == old(x.firstOffset)
+//@   ensures [log-untouched2] forall x *commitLog :: x.vActiveSegment == old(x.vActiveSegment) && x.segments == old(x.segments)
+//@   loop 1 invariant -1 <= rangeindex && rangeindex < len(msgs) && fresh(entries) && len(entries) == len(msgs)
+//@   loop 1 invariant forall j int :: 0 <= j && j < len(msgs) ==> msgs[j] == old(msgs[j])
+//@   loop 1 invariant forall x *Message :: x.Offset == old(x.Offset) && x.Timestamp == old(x.Timestamp) && x.LeaderEpoch == old(x.LeaderEpoch)
+//@   loop 1 invariant forall j int :: 0 <= j && j <= rangeindex ==> entries[j] != nil && allocated(entries[j])
+//@   loop 1 invariant forall j int :: 0 <= j && j <= rangeindex ==> entries[j].Offset == baseOffset + j
+//@   loop 1 invariant forall j int :: 0 <= j && j <= rangeindex ==> entries[j].Timestamp == old(msgs[j].Timestamp)
+//@   loop 1 invariant forall j int :: 0 <= j && j <= rangeindex ==> entries[j].LeaderEpoch == old(msgs[j].LeaderEpoch)
+//@   loop 1 invariant concurrencyControl ==> (forall j int :: 0 <= j && j <= rangeindex ==> old(msgs[j].Offset) == -1 || old(msgs[j].Offset) == baseOffset + j)
+//@   loop 1 invariant forall x *segment :: x.lastOffset == old(x.lastOffset) && x.BaseOffset == old(x.BaseOffset) && x.position == old(x.position) && x.firstOffset == old(x.firstOffset)
+//@   loop 1 invariant forall x *commitLog :: x.vActiveSegment == old(x.vActiveSegment) && x.segments == old(x.segments)
+
+// write / WriteMessageSet: the segment's last offset becomes that of the last entry written
+//@ func (*segment).write serves C01, C16
+//@   returns (n, err)
+//@   requires s != nil && len(entries) >= 1 && (forall j int :: 0 <= j && j < len(entries) ==> entries[j] != nil)
+//@   ensures [last] err == nil ==> s.lastOffset == old(entries[len(entries)-1].Offset)
+//@   ensures [base-kept] forall x *segment :: x.BaseOffset == old(x.BaseOffset)
+//@   ensures [others-kept] forall x *segment :: x != s ==> x.lastOffset == old(x.lastOffset)
+//@   ensures [failed-unchanged] err != nil ==> s.lastOffset == old(s.lastOffset)
+//@   ensures [log-kept] forall x *commitLog :: x.vActiveSegment == old(x.vActiveSegment)
+
+//@ func (*segment).WriteMessageSet serves C01, C16
+//@   requires s != nil && len(entries) >= 1 && (forall j int :: 0 <= j && j < len(entries) ==> entries[j] != nil)
+//@   ensures [last] result == nil ==> s.lastOffset == old(entries[len(entries)-1].Offset)
+//@   ensures [base-kept] forall x *segment :: x.BaseOffset == old(x.BaseOffset)
+//@   ensures [others-kept] forall x *segment :: x != s ==> x.lastOffset == old(x.lastOffset)
+//@   ensures [log-kept] forall x *commitLog :: x.vActiveSegment == old(x.vActiveSegment)
+//@   ensures [entries-kept] forall j int :: 0 <= j && j < len(entries) ==> entries[j] == old(entries[j]) && entries[j].Offset == old(entries[j].Offset) && entries[j].LeaderEpoch == old(entries[j].LeaderEpoch)
+
+// append: the offsets returned are the entries' offsets
+//@ func (*commitLog).append serves C01, C16, C02
+//@   returns (offsets, err)
+//@   requires l != nil && l.leaderEpochCache != nil && wfEpochs(l.leaderEpochCache) && segment != nil && len(entries) >= 1 && (forall j int :: 0 <= j && j < len(entries) ==> entries[j] != nil)
+//@   ensures [offsets] err == nil ==> len(offsets) == len(entries) && (forall j int :: 0 <= j && j < len(offsets) ==> offsets[j] == old(entries[j].Offset))
+//@   ensures [last] err == nil ==> segment.lastOffset == old(entries[len(entries)-1].Offset)
+//@   ensures [base-kept] forall x *segment :: x.BaseOffset == old(x.BaseOffset)
+//@   ensures [log-kept] forall x *commitLog :: x.vActiveSegment == old(x.vActiveSegment)
+//@   ensures [epochs-wf] wfEpochs(l.leaderEpochCache)
+//@   loop 1 invariant -1 <= rangeindex && rangeindex < len(entries) && fresh(offsets) && len(offsets) == len(entries)
+//@   loop 1 invariant forall j int :: 0 <= j && j < len(entries) ==> entries[j] == old(entries[j]) && entries[j] != nil && entries[j].Offset == old(entries[j].Offset)
+//@   loop 1 invariant forall j int :: 0 <= j && j <= rangeindex ==> offsets[j] == old(entries[j].Offset)
+//@   loop 1 invariant segment.lastOffset == old(entries[len(entries)-1].Offset) && wfEpochs(l.leaderEpochCache) && l.leaderEpochCache == old(l.leaderEpochCache)
+//@   loop 1 invariant forall x *segment :: x.BaseOffset == old(x.BaseOffset)
+//@   loop 1 invariant forall x *commitLog :: x.vActiveSegment == old(x.vActiveSegment)
+
+// Append: the batch gets the next consecutive offsets; a conditional publish is stored iff it is assigned the offset
+// it expected, otherwise ErrIncorrectOffset and the log's next offset is unchanged.
+//@ func (*commitLog).Append serves C01, C16
+//@   returns (offsets, err)
+//@   requires l != nil && l.vActiveSegment != nil && l.leaderEpochCache != nil && wfEpochs(l.leaderEpochCache)
+//@   requires len(msgs) >= 1 && (forall j int :: 0 <= j && j < len(msgs) ==> msgs[j] != nil) && nextOffset(l) >= 0
+//@   ensures [consecutive] err == nil ==> len(offsets) == len(msgs) && (forall j int :: 0 <= j && j < len(offsets) ==> offsets[j] == old(nextOffset(l)) + j)
+//@   ensures [next-advanced] err == nil ==> nextOffset(l) == old(nextOffset(l)) + len(msgs)
+//@   ensures [conditional-lands-where-expected] err == nil && l.ConcurrencyControl && len(msgs) == 1 && old(msgs[0].Offset) != -1 ==> offsets[0] == old(msgs[0].Offset)
+//@   ensures [mismatch-refused] old(l.ConcurrencyControl) && len(msgs) == 1 && old(msgs[0].Offset) != -1 && old(msgs[0].Offset) != old(nextOffset(l)) ==> err != nil
+//@   call (*commitLog).append requires [only-when-accepted] err == nil
+
+// Of two successful conditional appends with the same expected offset (no truncation in between) at most one wins.
+//@ lemma atMostOneWinner serves C16: forall n1 int64, m1 int64, n2 int64, m2 int64, e int64 :: e != -1 && (e == n1 && m1 == n1 + 1) && n2 >= m1 && (e == n2 && m2 == n2 + 1) ==> false
